@@ -4,7 +4,7 @@ package maurl
 
 // Contracts for the deductive checks in /verif (comment-only; no code).
 // Property C20 (URL half): scheme table of ToURL, component structure of FromURL.
-// The agreement of url.PathEscape with go-multiaddr's http-path transcoder is a
+// The agreement of url.QueryEscape with go-multiaddr's http-path transcoder is a
 // fact about two dependencies and is NOT decided here (bounded stand-in only).
 
 // From the property: https, or http together with tls, map to https; http alone
@@ -15,14 +15,19 @@ package maurl
 //@   property C20
 //@   ghost unesc := ""
 //@   ghost unescErr := true
+//@   at call QueryUnescape#1: after ghost unesc := result0
+//@   at call QueryUnescape#1: after ghost unescErr := result1 != nil
 //@   at call PathUnescape#1: after ghost unesc := result0
 //@   at call PathUnescape#1: after ghost unescErr := result1 != nil
 //@   loop 1: invariant pm != nil && isfresh(pm)
 //@   ensures-local result1 == nil ==> result0 != nil
 //@   ensures-local result1 == nil ==> str(result0.Scheme) == schemeOf(has(pm, multiaddr.P_HTTPS), has(pm, multiaddr.P_HTTP), has(pm, multiaddr.P_TLS), has(pm, multiaddr.P_WSS), has(pm, multiaddr.P_WS))
-//@   ensures-local result1 == nil && !has(pm, multiaddr.P_HTTP_PATH) && !has(pm, oldProtoHTTPath.Code) ==> str(result0.Path) == str("")
-//@   ensures-local result1 == nil && (has(pm, multiaddr.P_HTTP_PATH) || has(pm, oldProtoHTTPath.Code)) ==> str(result0.Path) == ite(unescErr, str(""), str(unesc))
-//@   ensures-local result1 == nil && has(pm, multiaddr.P_HTTP_PATH) ==> count("call:PathUnescape") == 1
+//@   ensures-local result1 == nil ==> !has(pm, multiaddr.P_HTTP_PATH) && !has(pm, oldProtoHTTPath.Code) ==> str(result0.Path) == str("")
+//@   ensures-local result1 == nil ==> (has(pm, multiaddr.P_HTTP_PATH) || has(pm, oldProtoHTTPath.Code)) ==> str(result0.Path) == ite(unescErr, str(""), str(unesc))
+//@   ensures-local result1 == nil ==> has(pm, multiaddr.P_HTTP_PATH) ==> count("call:QueryUnescape") == 1 && count("call:PathUnescape") == 0
+//@   ensures-local result1 == nil ==> !has(pm, multiaddr.P_HTTP_PATH) && has(pm, oldProtoHTTPath.Code) ==> count("call:PathUnescape") == 1 && count("call:QueryUnescape") == 0
+//@   at call QueryUnescape#1: assert has(pm, multiaddr.P_HTTP_PATH) && str(arg0) == str(pm[multiaddr.P_HTTP_PATH])
+//@   at call PathUnescape#1: assert str(arg0) == str(pm[oldProtoHTTPath.Code])
 
 // FromURL: host component, then tcp(port) iff a port is given, then the scheme
 // component, then http-path(PathEscape(path)) iff the path is non-empty.
@@ -31,11 +36,11 @@ package maurl
 //@   requires u != nil
 //@   ghost port := ""
 //@   at call Port#1: after ghost port := result
-//@   ensures-local result1 == nil && str(port) != str("") && str(u.Path) != str("") ==> count("call:Join") == 3 && count("call:PathEscape") == 1
-//@   ensures-local result1 == nil && str(port) != str("") && str(u.Path) == str("") ==> count("call:Join") == 2 && count("call:PathEscape") == 0
-//@   ensures-local result1 == nil && str(port) == str("") && str(u.Path) != str("") ==> count("call:Join") == 2 && count("call:PathEscape") == 1
-//@   ensures-local result1 == nil && str(port) == str("") && str(u.Path) == str("") ==> count("call:Join") == 1 && count("call:PathEscape") == 0
-//@   at call PathEscape#1: assert arg0 == u.Path
+//@   ensures-local result1 == nil && str(port) != str("") && str(u.Path) != str("") ==> count("call:Join") == 3 && count("call:QueryEscape") == 1
+//@   ensures-local result1 == nil && str(port) != str("") && str(u.Path) == str("") ==> count("call:Join") == 2 && count("call:QueryEscape") == 0
+//@   ensures-local result1 == nil && str(port) == str("") && str(u.Path) != str("") ==> count("call:Join") == 2 && count("call:QueryEscape") == 1
+//@   ensures-local result1 == nil && str(port) == str("") && str(u.Path) == str("") ==> count("call:Join") == 1 && count("call:QueryEscape") == 0
+//@   at call QueryEscape#1: assert arg0 == u.Path
 
 //@ func pathVal
 //@   property C20
